@@ -70,7 +70,9 @@ func subqueryCLIQueries(c *core.Ctx) []cliQuery {
 	}
 	for si := range subqueryShapes {
 		for qi, sq := range subqueryConjuncts {
-			if (si+qi)%2 == 0 {
+			// a lookup join re-runs its right side, subquery included, for every left row: natively
+			// already seconds per query, so only the two uncorrelated conjuncts go under it
+			if (si+qi)%2 == 0 && (subqueryShapes[si].name != "lookup-join" || qi < 2) || subqueryShapes[si].name == "lookup-join" && qi < 2 {
 				add(si, "t.a > 2.0 AND "+sq, "", k)
 			}
 			k++
@@ -86,7 +88,11 @@ func subqueryCLIQueries(c *core.Ctx) []cliQuery {
 		if rng.Intn(2) == 0 {
 			where = sq + " AND " + p.sql
 		}
-		add(rng.Intn(len(subqueryShapes)), where, p.key, k)
+		shape := rng.Intn(len(subqueryShapes))
+		if subqueryShapes[shape].name == "lookup-join" {
+			shape = 0
+		}
+		add(shape, where, p.key, k)
 		k++
 	}
 	return out
